@@ -730,13 +730,42 @@ def run_history_case(p):
 
 def run_reuse_case(p):
     """C19: one expression object used first as a condition and then as an operand of a comparison: the second use must
-    not inherit the truthiness filter of the first"""
+    not inherit the truthiness filter of the first.  With p['both_roles']: ONE query in which the expression is a selected
+    output and, at the same time, a condition (either operand of an or_ / and_): as a condition it is a truth value, as a
+    selected output it is passed on whatever it is"""
     from entity_query_language import symbolic_mode, let, an, entity
     O.reset_registry()
     rng = random.Random(p['seed'])
     dom = O.make_domain(rng, 4, falsy=True)
     attr = rng.choice(['size', 'name', 'flag'])
     falsy = {'size': 0, 'name': '', 'flag': False}[attr]
+    if p.get('both_roles'):
+        from entity_query_language import set_of, or_, and_
+        other = O.gen_cond(rng, 1, 1, falsy=True, vocab=('cmp', 'name'), neg=False)
+        shape = rng.choice(['or_right', 'or_left', 'and_right', 'and_left'])
+        listing = rng.choice(['x_e', 'e_x', 'e_only'])
+        try:
+            with symbolic_mode():
+                x = let(type_=O.Item, domain=dom)
+                e = getattr(x, attr) if rng.random() < 0.8 else x.props['k']
+                oc = O.build(other, [x])
+                cond = {'or_right': lambda: or_(oc, e), 'or_left': lambda: or_(e, oc), 'and_right': lambda: and_(oc, e),
+                        'and_left': lambda: and_(e, oc)}[shape]()
+                q = an(set_of([x, e], cond)) if listing == 'x_e' else (an(set_of([e, x], cond)) if listing == 'e_x' else an(entity(e, cond)))
+            val = (lambda o: getattr(o, attr)) if e._name_.endswith(attr) else (lambda o: o.props['k'])
+            sat = [o for o in dom if ((O.holds(other, {0: o}) or bool(val(o))) if shape.startswith('or') else (O.holds(other, {0: o}) and bool(val(o))))]
+            outs = []
+            for _ in range(2):
+                rows = list(q.evaluate())
+                outs.append(sorted(((id(r[x]), repr(r[e])) if listing != 'e_only' else (0, repr(r))) for r in rows))
+            want = sorted(((id(o), repr(val(o))) if listing != 'e_only' else (0, repr(val(o)))) for o in sat)
+        except Exception as ex:  # noqa
+            return {'shape': shape, 'exception': repr(ex), 'trace': traceback.format_exc(limit=4), 'signature_kind': 'both-roles:exception'}
+        ok = all((o_ == want) if listing != 'e_only' else (sorted(set(o_)) == sorted(set(want))) for o_ in outs)
+        if not ok:
+            return {'shape': shape, 'listing': listing, 'attr': attr, 'other': repr(other), 'domain': repr(dom), 'got': repr(outs),
+                    'want': repr(want), 'signature_kind': 'both-roles:' + shape}
+        return None
     try:
         with symbolic_mode():
             x = let(type_=O.Item, domain=dom)
@@ -1675,8 +1704,21 @@ def run_rdrtree_case(p):
     d1 = O.make_domain(rng, p.get('n', 5)) if nv > 1 else None
     (O.enable_caching if p.get('caching', True) else O.disable_caching)()
     tree = gen_rule_tree(rng, p.get('rules', 5), p.get('depth', 2), nv)
+    if nv > 1 and p.get('overridden'):
+        # the shape in which a selector's selection is replaced further up: the base rule has a first refinement over one
+        # variable and a second refinement (with an alternative of its own) whose conclusions mention ONE variable only, so
+        # that the same binding of that variable is selected below for several rows and replaced above for some of them
+        va = rng.randrange(2)
+
+        def cnd(v):
+            return rng.choice([('cmp', rng.choice(['lt', 'ge', 'ne', 'eq']), ('attr', v, 'size'), ('lit', rng.choice([1, 2, 3]))),
+                               ('cmp', rng.choice(['eq', 'ne']), ('attr', v, 'name'), ('lit', rng.choice('abc')))])
+        tree = {'cond': ('cmp', rng.choice(['le', 'ge', 'ne']), ('attr', 0, 'size'), ('attr', 1, 'size')), 'tag': 'T1', 'vars': (0, 1),
+                'body': [('ref', {'cond': cnd(1 - va), 'tag': 'T2', 'vars': (0, 1), 'body': []}),
+                         ('ref', {'cond': cnd(va), 'tag': 'T3', 'vars': (va,),
+                                  'body': [('alt', {'cond': cnd(va), 'tag': 'T4', 'vars': (va,), 'body': []})]})]}
     shape = rule_shape(tree)
-    if nv > 1 and p.get('subset'):
+    if nv > 1 and p.get('subset') and not p.get('overridden'):
         # conclusions over different sets of variables: a conclusion that does not mention a variable is drawn once per
         # binding of the variables it does mention, so the results are compared as sets
         rng2 = random.Random(p['seed'] * 7 + 1)
@@ -1729,7 +1771,7 @@ def run_rdrtree_case(p):
                         want.append((i if 0 in vs else None, j if 1 in vs else None, t))
         else:
             want = [(i, rdr_reference(tree, {0: o})) for i, o in enumerate(d0) if rdr_reference(tree, {0: o}) is not None]
-        norm = (lambda l: sorted(set(l), key=repr)) if p.get('subset') else (lambda l: sorted(l, key=repr))
+        norm = (lambda l: sorted(set(l), key=repr)) if (p.get('subset') or p.get('overridden')) else (lambda l: sorted(l, key=repr))
         want = norm(want)
         got = want
         for n in range(p.get('evals', 2)):          # the same answer on every evaluation
@@ -1745,7 +1787,7 @@ def run_rdrtree_case(p):
         def show(r):
             return {'cond': repr(r['cond']), 'tag': r['tag'], 'body': [(k, show(s_)) for k, s_ in r['body']]}
         kind = shape
-        if p.get('subset') and nv > 1 and not [g for g in got if g not in want]:
+        if (p.get('subset') or p.get('overridden')) and nv > 1 and not [g for g in got if g not in want]:
             asg = {(i, j): (a, b) for i, a in enumerate(d0) for j, b in enumerate(d1)}
             final = {k: rdr_reference(tree, {0: a, 1: b}) for k, (a, b) in asg.items()}
             if all(overridden_selection_pattern(tree, m, asg, final, nv) for m in want if m not in got):
